@@ -1,6 +1,7 @@
 package main
 
 import (
+	"strings"
 	"verif/layera"
 	"verif/layerb"
 )
@@ -32,7 +33,21 @@ func runC14(opt *Options) int {
 	// Layer B leg (generation outcomes, not a solver verdict): which functions and declarations whole runs accept
 	lb := &lbRun{Opt: opt, Convs: layerb.FamilySignature(opt.Thorough()), Check: func(pc *layerb.PathCtx) {}, Bounds: layerb.Bounds{}, NoEvidence: true, Rule: lbRule, Assume: lbAssume, CaseBase: 200}
 	lbrc := lb.finish(lb.runNoExplore(), "translation_validation", nil)
-	rc := lr.finish(lr.run(), map[string]interface{}{"accept_reject_programs": map[string]interface{}{
+	// second Layer B leg: custom functions with context / converter parameters at every position are classified and
+	// called with the arguments in the declared order (values and call arguments checked symbolically)
+	var roleConvs []*layerb.Conv
+	for _, c := range layerb.FamilyCustom(opt.Thorough()) {
+		for _, leaf := range []string{"custom/extend_ctx/", "custom/extend_ctx_first/", "custom/extend_regex_doc_ctx/", "custom/extend_conv/", "custom/extend_conv_last/", "custom/extend_conv_middle/", "/fieldfunc/methodctx"} {
+			if strings.Contains(c.ID, leaf) {
+				roleConvs = append(roleConvs, c)
+			}
+		}
+	}
+	lb2 := &lbRun{Opt: opt, Convs: roleConvs, Check: layerb.CheckCalls, Bounds: layerb.Bounds{MaxSlice: 1, MaxMap: 1, RecDepth: 1}, NoEvidence: true, Rule: lbRule, Assume: lbAssume, CaseBase: 300}
+	if rc2 := lb2.finish(lb2.run(), "translation_validation", nil); rc2 != 0 && lbrc == 0 {
+		lbrc = rc2
+	}
+	rc := lr.finish(lr.run(), map[string]interface{}{"parameter_role_programs": lb2.LastCov, "accept_reject_programs": map[string]interface{}{
 		"programs": len(lb.Convs), "note": "whole runs of the goverter binary: unexported default / map|FUNC / extend functions versus the output package, declarations with a wrong shape; rejected-but-valid and accepted-but-invalid programs are violations; emitted code of accepted programs is type-checked",
 		"rejected_expected_success": lb.LastCov["generation_rejected_expected_success"], "accepted_expected_failure": lb.LastCov["generation_accepted_expected_failure"]}})
 	if rc == 0 {
